@@ -1,24 +1,24 @@
 // Replay of a solver counterexample for property C20, harness inverse_law_3x3
 // (package nitrogql-utils, harness file kv/harness/utils/relpath_h.rs).
 // Re-run: /verif/bin/check C20 --replay /verif/replays/C20/inverse_law_3x3.rs
-// Failing check: assertion ""C20: resolve(a, relative(a, b)) == normalize(b)""
+// Failing check: assertion ""C20: relative path between two files is not empty""
 #[test]
-fn kani_concrete_playback_inverse_law_3x3_221364831338678184() {
+fn kani_concrete_playback_inverse_law_3x3_11941801923826534742() {
     let concrete_vals: std::vec::Vec<std::vec::Vec<u8>> = std::vec![
         // 3ul
         std::vec![3, 0, 0, 0, 0, 0, 0, 0],
         // 1
         std::vec![1],
-        // 1
-        std::vec![1],
+        // 3
+        std::vec![3],
         // 0
         std::vec![0],
         // 3ul
         std::vec![3, 0, 0, 0, 0, 0, 0, 0],
         // 0
         std::vec![0],
-        // 1
-        std::vec![1],
+        // 3
+        std::vec![3],
         // 1
         std::vec![1],
     ];
